@@ -10,24 +10,50 @@ def Op.Valid (valid : Bytes → Prop) : Op F → Prop
   | .add q _ c _ _ => valid q ∧ valid c
   | _ => True
 
+/-- the same at a given clock reading: the instant the entry gets has a text form -/
+def Op.ValidAt (valid : Bytes → Prop) (okT okI : Int → Prop) (clock : Int) : Op F → Prop
+  | .add q r c d dt => valid q ∧ valid c ∧ okT (clock + dt) ∧ okI r ∧ okI d
+  | _ => True
+
+def Op.clockAfter (clock : Int) : Op F → Int
+  | .add _ _ _ _ dt => clock + dt
+  | _ => clock
+
+/-- every recorded search of the history carries valid strings and gets a representable instant -/
+def OpsValid (valid : Bytes → Prop) (okT okI : Int → Prop) : Int → List (Op F) → Prop
+  | _, [] => True
+  | c, op :: ops => op.ValidAt valid okT okI c ∧ OpsValid valid okT okI (op.clockAfter c) ops
+
+theorem OpsValid.of_forall {valid : Bytes → Prop} (ops : List (Op F)) (c : Int) (h : ∀ op ∈ ops, op.Valid valid) :
+    OpsValid valid (fun _ => True) (fun _ => True) c ops := by
+  induction ops generalizing c with
+  | nil => trivial
+  | cons op ops ih =>
+    refine ⟨?_, ih _ (fun o ho => h o (by simp [ho]))⟩
+    have := h op (by simp)
+    cases op <;> simp_all [Op.ValidAt, Op.Valid]
+
+theorem specStep_clock (x : Spec) (op : Op F) : (specStep x op).clock = op.clockAfter x.clock := by
+  cases op <;> rfl
+
 /-- what is known about the on-disk file in a tool-produced history: it is what `Save` wrote for some
     earlier state `snap` of this very history -/
-def FileInv (valid : Bytes → Prop) (Q : Int → Prop) (clock : Int) (file : Option F) (saved : Option (List Core)) : Prop :=
+def FileInv (valid : Bytes → Prop) (okT okI : Int → Prop) (Q : Int → Prop) (clock : Int) (file : Option F) (saved : Option (List Core)) : Prop :=
   (file = none ∧ saved = none) ∨
   ∃ (snap : State) (L : List Core), file = some (saveBytes C snap) ∧ saved = some L ∧ Q snap.maxSize ∧
-    (snap.entries.length : Int) ≤ snap.maxSize ∧ Chrono clock snap.entries ∧ (∀ e ∈ snap.entries, e.Valid valid) ∧
+    (snap.entries.length : Int) ≤ snap.maxSize ∧ Chrono clock snap.entries ∧ (∀ e ∈ snap.entries, e.Valid valid okT okI) ∧
     snap.entries.map Entry.core = lastN snap.maxSize.toNat L
 
 /-- `Q` is what is known about every limit that occurs (in memory and in the file): at least positivity;
     `(· = M)` when every process asks for the same size. -/
-structure Inv (valid : Bytes → Prop) (Q : Int → Prop) (y : Sys F) (x : Spec) : Prop where
+structure Inv (valid : Bytes → Prop) (okT okI : Int → Prop) (Q : Int → Prop) (y : Sys F) (x : Spec) : Prop where
   max : Q y.h.maxSize
   bounded : (y.h.entries.length : Int) ≤ y.h.maxSize
   chrono : Chrono y.clock y.h.entries
-  validE : ∀ e ∈ y.h.entries, e.Valid valid
+  validE : ∀ e ∈ y.h.entries, e.Valid valid okT okI
   refines : y.h.entries.map Entry.core = lastN y.h.maxSize.toNat x.log
   clock : x.clock = y.clock
-  file : FileInv C valid Q y.clock y.file x.saved
+  file : FileInv C valid okT okI Q y.clock y.file x.saved
 
 /-- operations of tool-produced histories; a new process must ask for a size `Q` accepts -/
 def Op.Ok (P : Params) (Q : Int → Prop) : Op F → Prop
@@ -35,15 +61,15 @@ def Op.Ok (P : Params) (Q : Int → Prop) : Op F → Prop
   | .restart m => Q (new P m).maxSize
   | _ => True
 
-theorem FileInv.mono {valid : Bytes → Prop} {Q : Int → Prop} {c c' : Int} {file : Option F} {saved : Option (List Core)}
-    (h : FileInv C valid Q c file saved) (hc : c ≤ c') : FileInv C valid Q c' file saved := by
+theorem FileInv.mono {valid : Bytes → Prop} {okT okI : Int → Prop} {Q : Int → Prop} {c c' : Int} {file : Option F} {saved : Option (List Core)}
+    (h : FileInv C valid okT okI Q c file saved) (hc : c ≤ c') : FileInv C valid okT okI Q c' file saved := by
   rcases h with h | ⟨snap, L, h1, h2, h3, h4, h5, h6, h7⟩
   · exact Or.inl h
   · exact Or.inr ⟨snap, L, h1, h2, h3, h4, h5.mono hc, h6, h7⟩
 
-theorem step_inv {valid : Bytes → Prop} (L : C.Laws valid) (P : Params) {Q : Int → Prop} (hQ : ∀ k, Q k → 0 < k)
-    {y : Sys F} {x : Spec} (h : Inv C valid Q y x) (op : Op F) (ht : op.Ok P Q) (hv : op.Valid valid) :
-    ∃ y', step C P y op = .ok y' ∧ Inv C valid Q y' (specStep x op) := by
+theorem step_inv {valid : Bytes → Prop} {okT okI : Int → Prop} (L : Codec.LawsOn C valid okT okI) (P : Params) {Q : Int → Prop} (hQ : ∀ k, Q k → 0 < k) (hQI : ∀ k, Q k → okI k)
+    {y : Sys F} {x : Spec} (h : Inv C valid okT okI Q y x) (op : Op F) (ht : op.Ok P Q) (hv : op.ValidAt valid okT okI y.clock) :
+    ∃ y', step C P y op = .ok y' ∧ Inv C valid okT okI Q y' (specStep x op) := by
   have hpos : 0 < y.h.maxSize := hQ _ h.max
   have hm1 : 1 ≤ y.h.maxSize.toNat := by omega
   cases op with
@@ -106,7 +132,7 @@ theorem step_inv {valid : Bytes → Prop} (L : C.Laws valid) (P : Params) {Q : I
       simp only [this, specStep, hs, Option.getD_none]
       exact ⟨h.max, h.bounded, h.chrono, h.validE, h.refines, h.clock, Or.inl ⟨hf, rfl⟩⟩
     · have hl : (load C P y.h y.file).1 = snap := by
-        rw [hf, load_saveBytes C L P y.h snap (hQ _ h3) h6]
+        rw [hf, load_saveBytes C L P y.h snap (hQ _ h3) (hQI _ h3) h6]
       simp only [hl, specStep, hs, Option.getD_some]
       exact ⟨h3, h4, h5, h6, h7, h.clock, Or.inr ⟨snap, Lg, hf, rfl, h3, h4, h5, h6, h7⟩⟩
   | clear =>
@@ -117,22 +143,23 @@ theorem step_inv {valid : Bytes → Prop} (L : C.Laws valid) (P : Params) {Q : I
     refine ⟨h.max, hb, hc, by simp [clear], by simp [clear, specStep, lastN_nil], h.clock, ?_⟩
     exact Or.inr ⟨clear y.h, [], rfl, rfl, h.max, hb, hc, by simp [clear], by simp [clear, lastN_nil]⟩
 
-theorem run_inv {valid : Bytes → Prop} (L : C.Laws valid) (P : Params) {Q : Int → Prop} (hQ : ∀ k, Q k → 0 < k)
-    (ops : List (Op F)) {y : Sys F} {x : Spec} (h : Inv C valid Q y x)
-    (ht : ∀ op ∈ ops, op.Ok P Q) (hv : ∀ op ∈ ops, op.Valid valid) :
-    ∃ y', run C P y ops = .ok y' ∧ Inv C valid Q y' (specRun x ops) := by
+theorem run_inv {valid : Bytes → Prop} {okT okI : Int → Prop} (L : Codec.LawsOn C valid okT okI) (P : Params) {Q : Int → Prop} (hQ : ∀ k, Q k → 0 < k) (hQI : ∀ k, Q k → okI k)
+    (ops : List (Op F)) {y : Sys F} {x : Spec} (h : Inv C valid okT okI Q y x)
+    (ht : ∀ op ∈ ops, op.Ok P Q) (hv : OpsValid valid okT okI y.clock ops) :
+    ∃ y', run C P y ops = .ok y' ∧ Inv C valid okT okI Q y' (specRun x ops) := by
   induction ops generalizing y x with
   | nil => exact ⟨y, rfl, h⟩
   | cons op ops ih =>
-    obtain ⟨y1, h1, hi1⟩ := step_inv C L P hQ h op (ht op (by simp)) (hv op (by simp))
-    obtain ⟨y2, h2, hi2⟩ := ih hi1 (fun o ho => ht o (by simp [ho])) (fun o ho => hv o (by simp [ho]))
+    obtain ⟨y1, h1, hi1⟩ := step_inv C L P hQ hQI h op (ht op (by simp)) hv.1
+    have hc : y1.clock = op.clockAfter y.clock := by rw [← hi1.clock, specStep_clock, h.clock]
+    obtain ⟨y2, h2, hi2⟩ := ih hi1 (fun o ho => ht o (by simp [ho])) (hc ▸ hv.2)
     refine ⟨y2, ?_, ?_⟩
     · simp only [run, h1, h2]
     · simpa [specRun] using hi2
 
-theorem init_inv {valid : Bytes → Prop} (P : Params) (m t0 : Int) {Q : Int → Prop} (hq : Q (new P m).maxSize)
+theorem init_inv {valid : Bytes → Prop} {okT okI : Int → Prop} (P : Params) (m t0 : Int) {Q : Int → Prop} (hq : Q (new P m).maxSize)
     (hpos : 0 < (new P m).maxSize) :
-    Inv C valid Q (init P m t0 : Sys F) ⟨[], none, t0⟩ := by
+    Inv C valid okT okI Q (init P m t0 : Sys F) ⟨[], none, t0⟩ := by
   refine ⟨hq, ?_, ⟨List.Pairwise.nil, by simp [init, new]⟩, by simp [init, new], by simp [init, new, lastN_nil], rfl, Or.inl ⟨rfl, rfl⟩⟩
   simp only [init, new, List.length_nil] at *
   omega
